@@ -30,6 +30,12 @@ MUTANTS = [
 	 "ref_chunk = refs[idx]", ["ref_chunk = refs[idx]", "if ref_indices is not None and len(ref_chunk) > 2:", "\tref_chunk = ref_chunk[list(range(len(ref_chunk)))[::-1]]"]),
 	('c05-condensed-offset-drift', 'C05', 'src/gambit/metric.py',
 	 "next_out += ncol", ["next_out += ncol if i != 2 else ncol - 1"]),
+	('c19-flush-after-presize', 'C19', 'src/gambit/sigs/hdf5.py',
+	 "values = group.create_dataset('values', shape=int(bounds[-1]), dtype=signatures.dtype, **values_kw)",
+	 ["values = group.create_dataset('values', shape=int(bounds[-1]), dtype=signatures.dtype, **values_kw)", "group.file.flush()"]),
+	('c19-append-mode', 'C19', 'src/gambit/sigs/hdf5.py',
+	 "with h5.File(path, 'w') as f:",
+	 ["with h5.File(path, 'a') as f:", "\tfor name in list(f):", "\t\tdel f[name]"]),
 ]
 
 
